@@ -6,10 +6,10 @@
 // compares <result> as text (bit patterns).  Also self-checks computeRSMatrix against the sequence of real calls
 // it is documented to perform ("RS" lines) and prints hit counters ("STATS").
 //   c12_corr <seed> <n>
+#include <cstdint>
 #include <ImathMatrixAlgo.cpp>
 #include <ImathEuler.h>
 #include "c12_structured.h"
-#include <cstdint>
 #include <cstdio>
 #include <cstring>
 #include <random>
@@ -18,21 +18,35 @@
 #include <map>
 
 using namespace IMATH_INTERNAL_NAMESPACE;
+// Element type: double (default) or, with -DC12_FLOAT, float — the `float` instantiations of the same templates / of the functions
+// explicitly instantiated in ImathMatrixAlgo.cpp, compared with the models evaluated at Float32 (lines are prefixed with `f32`).
+#ifdef C12_FLOAT
+typedef float T;
+typedef uint32_t BITS;
+#define CASEP "CASE f32 "
+#define HEXFMT "%08llx"
+static const int TINY_LO = 20, TINY_HI = 45, HUGE_LO = 10, HUGE_HI = 38, SMALL_LO = 30, SMALL_HI = 37, GRADE = 5, LEN_EXP = 45;
+static const double DENORM = 1.401298464324817e-45, EPS_T = 1.1920928955078125e-07, NEARDIAG = 1e-8;
+#else
 typedef double T;
+typedef uint64_t BITS;
+#define CASEP "CASE "
+#define HEXFMT "%016llx"
+static const int TINY_LO = 150, TINY_HI = 320, HUGE_LO = 100, HUGE_HI = 300, SMALL_LO = 290, SMALL_HI = 307, GRADE = 12, LEN_EXP = 320;
+static const double DENORM = 4.9406564584124654e-324, EPS_T = 2.220446049250313e-16, NEARDIAG = 1e-17;
+#endif
 
 static std::map<std::string, long> stats;
-static std::string hx (double x)
+static std::string hin (T x)
 {
-    if (x != x) return "nan";
-    uint64_t u; memcpy (&u, &x, 8);
-    char b[32]; snprintf (b, sizeof b, "%016llx", (unsigned long long) u);
+    BITS u; memcpy (&u, &x, sizeof u);
+    char b[32]; snprintf (b, sizeof b, HEXFMT, (unsigned long long) u);
     return b;
 }
-static std::string hin (double x)
+static std::string hx (T x)
 {
-    uint64_t u; memcpy (&u, &x, 8);
-    char b[32]; snprintf (b, sizeof b, "%016llx", (unsigned long long) u);
-    return b;
+    if (x != x) return "nan";
+    return hin (x);
 }
 template <class M> static std::string hm (const M& m, int n, bool in = false)
 {
@@ -62,7 +76,7 @@ static Matrix44<T> gen44 (int cls)
         case 0: // S*H*R*T, graded conditioning
         case 1: // with negative scales / reflections
         {
-            int k = I (0, 12);
+            int k = I (0, GRADE);
             Vec3<T> s (U (0.5, 2) * std::pow (10.0, I (-k, k)), U (0.5, 2) * std::pow (10.0, I (-k, k)), U (0.5, 2) * std::pow (10.0, I (-k, k)));
             if (cls == 1) { s.x *= sgn (); s.y *= sgn (); s.z *= sgn (); }
             Vec3<T> h (U (-2, 2), U (-2, 2), U (-2, 2));
@@ -86,9 +100,9 @@ static Matrix44<T> gen44 (int cls)
         {
             m = randomRot ();
             int w = I (0, 3);
-            double f = w == 0 ? std::pow (10.0, -I (150, 320)) : w == 1 ? 4.9406564584124654e-324 * I (1, 1000) : std::pow (10.0, I (100, 300));
+            double f = w == 0 ? std::pow (10.0, -I (TINY_LO, TINY_HI)) : w == 1 ? DENORM * I (1, 1000) : std::pow (10.0, I (HUGE_LO, HUGE_HI));
             int r = I (0, 2);
-            if (w == 3) { for (int i = 0; i < 3; ++i) for (int j = 0; j < 3; ++j) m[i][j] *= std::pow (10.0, -I (290, 307)); }
+            if (w == 3) { for (int i = 0; i < 3; ++i) for (int j = 0; j < 3; ++j) m[i][j] *= std::pow (10.0, -I (SMALL_LO, SMALL_HI)); }
             else for (int j = 0; j < 3; ++j) m[r][j] *= f;
             break;
         }
@@ -109,7 +123,7 @@ static Matrix33<T> gen33 (int cls)
         case 0:
         case 1:
         {
-            int k = I (0, 12);
+            int k = I (0, GRADE);
             Vec2<T> s (U (0.5, 2) * std::pow (10.0, I (-k, k)), U (0.5, 2) * std::pow (10.0, I (-k, k)));
             if (cls == 1) { s.x *= sgn (); s.y *= sgn (); }
             Matrix33<T> S, H, R, Tm;
@@ -130,9 +144,9 @@ static Matrix33<T> gen33 (int cls)
         {
             m.setRotation (U (-3.1, 3.1));
             int w = I (0, 3);
-            double f = w == 0 ? std::pow (10.0, -I (150, 320)) : w == 1 ? 4.9406564584124654e-324 * I (1, 1000) : std::pow (10.0, I (100, 300));
+            double f = w == 0 ? std::pow (10.0, -I (TINY_LO, TINY_HI)) : w == 1 ? DENORM * I (1, 1000) : std::pow (10.0, I (HUGE_LO, HUGE_HI));
             int r = I (0, 1);
-            if (w == 3) { for (int i = 0; i < 2; ++i) for (int j = 0; j < 2; ++j) m[i][j] *= std::pow (10.0, -I (290, 307)); }
+            if (w == 3) { for (int i = 0; i < 2; ++i) for (int j = 0; j < 2; ++j) m[i][j] *= std::pow (10.0, -I (SMALL_LO, SMALL_HI)); }
             else for (int j = 0; j < 2; ++j) m[r][j] *= f;
             break;
         }
@@ -155,7 +169,7 @@ static void caseEar44 (const Matrix44<T>& m0)
     if (threw == ok) { printf ("SELF-FAIL ear44 exc/non-exc disagree\n"); }
     stats[ok ? "ear44_true" : "ear44_false"]++;
     if (ok && (scl.x < 0)) stats["ear44_flipped"]++;
-    printf ("CASE ear44 %s => ", hm (m0, 4, true).c_str ());
+    printf (CASEP "ear44 %s => ", hm (m0, 4, true).c_str ());
     if (!ok) printf ("0\n");
     else printf ("1 %s %s %s\n", hm (m, 4).c_str (), hv (scl, 3).c_str (), hv (shr, 3).c_str ());
 }
@@ -168,7 +182,7 @@ static void caseEar33 (const Matrix33<T>& m0)
     if (threw == ok) { printf ("SELF-FAIL ear33 exc/non-exc disagree\n"); }
     stats[ok ? "ear33_true" : "ear33_false"]++;
     if (ok && scl.y < 0) stats["ear33_flipped"]++;
-    printf ("CASE ear33 %s => ", hm (m0, 3, true).c_str ());
+    printf (CASEP "ear33 %s => ", hm (m0, 3, true).c_str ());
     if (!ok) printf ("0\n");
     else printf ("1 %s %s %s\n", hm (m, 3).c_str (), hv (scl, 2).c_str (), hx (shr).c_str ());
 }
@@ -206,11 +220,11 @@ template <class M> static M randMat (int n, int cls)
     for (int i = 0; i < n; ++i) for (int j = 0; j < n; ++j) m[i][j] = cls == 1 ? (double) I (-3, 3) : U (-2, 2);
     if (cls == 2) for (int i = 0; i < n; ++i) for (int j = 0; j < i; ++j) m[i][j] = m[j][i];              // symmetric
     if (cls == 3) for (int i = 0; i < n; ++i) for (int j = 0; j < n; ++j) if (i != j) m[i][j] = 0;           // diagonal
-    if (cls == 4) for (int i = 0; i < n; ++i) for (int j = 0; j < n; ++j) if (i != j) m[i][j] *= 1e-17;      // nearly diagonal
+    if (cls == 4) for (int i = 0; i < n; ++i) for (int j = 0; j < n; ++j) if (i != j) m[i][j] *= NEARDIAG;      // nearly diagonal
     if (cls == 5) { for (int i = 0; i < n; ++i) m[i][i] = 0; for (int i = 0; i < n; ++i) for (int j = 0; j < i; ++j) m[i][j] = -m[j][i]; } // w + z = 0
     return m;
 }
-static const double TOLS[] = {2.220446049250313e-16, 0.0, 1e-3, 0.5};
+static const double TOLS[] = {EPS_T, 0.0, 1e-3, 0.5};
 
 static bool step3 (int j, int k, Matrix33<T>& A, Matrix33<T>& Um, Matrix33<T>& Vm, T tol)
 {
@@ -223,7 +237,7 @@ static void caseJ3 ()
     static const int P[3][2] = {{0, 1}, {0, 2}, {1, 2}};
     int p = I (0, 2); T tol = TOLS[I (0, 3)];
     Matrix33<T> A = randMat<Matrix33<T>> (3, I (0, 5)), Um = randMat<Matrix33<T>> (3, 0), Vm = randMat<Matrix33<T>> (3, 0);
-    printf ("CASE jstep3 %d %d %s %s %s %s => ", P[p][0], P[p][1], hin (tol).c_str (), hm (A, 3, true).c_str (), hm (Um, 3, true).c_str (), hm (Vm, 3, true).c_str ());
+    printf (CASEP "jstep3 %d %d %s %s %s %s => ", P[p][0], P[p][1], hin (tol).c_str (), hm (A, 3, true).c_str (), hm (Um, 3, true).c_str (), hm (Vm, 3, true).c_str ());
     bool ch = step3 (P[p][0], P[p][1], A, Um, Vm, tol);
     stats[ch ? "jstep3_changed" : "jstep3_unchanged"]++;
     printf ("%d %s %s %s\n", ch ? 1 : 0, hm (A, 3).c_str (), hm (Um, 3).c_str (), hm (Vm, 3).c_str ());
@@ -233,7 +247,7 @@ static void caseJ4 ()
     static const int P[6][2] = {{0, 1}, {0, 2}, {0, 3}, {1, 2}, {1, 3}, {2, 3}};
     int p = I (0, 5); T tol = TOLS[I (0, 3)];
     Matrix44<T> A = randMat<Matrix44<T>> (4, I (0, 5)), Um = randMat<Matrix44<T>> (4, 0), Vm = randMat<Matrix44<T>> (4, 0);
-    printf ("CASE jstep4 %d %d %s %s %s %s => ", P[p][0], P[p][1], hin (tol).c_str (), hm (A, 4, true).c_str (), hm (Um, 4, true).c_str (), hm (Vm, 4, true).c_str ());
+    printf (CASEP "jstep4 %d %d %s %s %s %s => ", P[p][0], P[p][1], hin (tol).c_str (), hm (A, 4, true).c_str (), hm (Um, 4, true).c_str (), hm (Vm, 4, true).c_str ());
     bool ch = twoSidedJacobiRotation (A, P[p][0], P[p][1], Um, Vm, tol);
     stats[ch ? "jstep4_changed" : "jstep4_unchanged"]++;
     printf ("%d %s %s %s\n", ch ? 1 : 0, hm (A, 4).c_str (), hm (Um, 4).c_str (), hm (Vm, 4).c_str ());
@@ -244,7 +258,7 @@ static void caseE3 ()
     Matrix33<T> A = randMat<Matrix33<T>> (3, 2 + (g () % 3 == 0 ? I (1, 2) : 0)), Vm = randMat<Matrix33<T>> (3, 0);
     Vec3<T> Z (U (-1, 1), U (-1, 1), U (-1, 1));
     static const int P[3][2] = {{0, 1}, {0, 2}, {1, 2}};
-    printf ("CASE estep3 %d %d %s %s %s %s => ", P[p][0], P[p][1], hin (tol).c_str (), hm (A, 3, true).c_str (), hm (Vm, 3, true).c_str (), hv (Z, 3, true).c_str ());
+    printf (CASEP "estep3 %d %d %s %s %s %s => ", P[p][0], P[p][1], hin (tol).c_str (), hm (A, 3, true).c_str (), hm (Vm, 3, true).c_str (), hv (Z, 3, true).c_str ());
     bool ch = p == 0 ? jacobiRotation<0, 1, 2> (A, Vm, Z, tol) : p == 1 ? jacobiRotation<0, 2, 1> (A, Vm, Z, tol) : jacobiRotation<1, 2, 0> (A, Vm, Z, tol);
     stats[ch ? "estep3_changed" : "estep3_unchanged"]++;
     printf ("%d %s %s %s\n", ch ? 1 : 0, hm (A, 3).c_str (), hm (Vm, 3).c_str (), hv (Z, 3).c_str ());
@@ -255,7 +269,7 @@ static void caseE4 ()
     Matrix44<T> A = randMat<Matrix44<T>> (4, 2 + (g () % 3 == 0 ? I (1, 2) : 0)), Vm = randMat<Matrix44<T>> (4, 0);
     Vec4<T> Z (U (-1, 1), U (-1, 1), U (-1, 1), U (-1, 1));
     static const int P[6][2] = {{0, 1}, {0, 2}, {0, 3}, {1, 2}, {1, 3}, {2, 3}};
-    printf ("CASE estep4 %d %d %s %s %s %s => ", P[p][0], P[p][1], hin (tol).c_str (), hm (A, 4, true).c_str (), hm (Vm, 4, true).c_str (), hv (Z, 4, true).c_str ());
+    printf (CASEP "estep4 %d %d %s %s %s %s => ", P[p][0], P[p][1], hin (tol).c_str (), hm (A, 4, true).c_str (), hm (Vm, 4, true).c_str (), hv (Z, 4, true).c_str ());
     bool ch;
     switch (p)
     {
@@ -278,8 +292,8 @@ template <int n> static void runSVD (const typename MatOf<n>::M& A, T tol, const
     jacobiSVD (A, U0, S0, V0, tol, false);
     T dU = U0.determinant (), dV = V0.determinant ();
     jacobiSVD (A, U1, S1, V1, tol, true);
-    printf ("CASE svd%d 0 %s %s %s %s => %s %s %s\n", n, hin (dU).c_str (), hin (dV).c_str (), hin (tol).c_str (), hm (A, n, true).c_str (), hm (U0, n).c_str (), hv (S0, n).c_str (), hm (V0, n).c_str ());
-    printf ("CASE svd%d 1 %s %s %s %s => %s %s %s\n", n, hin (dU).c_str (), hin (dV).c_str (), hin (tol).c_str (), hm (A, n, true).c_str (), hm (U1, n).c_str (), hv (S1, n).c_str (), hm (V1, n).c_str ());
+    printf (CASEP "svd%d 0 %s %s %s %s => %s %s %s\n", n, hin (dU).c_str (), hin (dV).c_str (), hin (tol).c_str (), hm (A, n, true).c_str (), hm (U0, n).c_str (), hv (S0, n).c_str (), hm (V0, n).c_str ());
+    printf (CASEP "svd%d 1 %s %s %s %s => %s %s %s\n", n, hin (dU).c_str (), hin (dV).c_str (), hin (tol).c_str (), hm (A, n, true).c_str (), hm (U1, n).c_str (), hv (S1, n).c_str (), hm (V1, n).c_str ());
     stats[std::string (stat) + (n == 3 ? "3" : "4")] += 2;
     if (dU < 0 || dV < 0) stats["svd_force_flips"]++;
     // did the solver rotate at all?  (U = V = I means "treated as already diagonal")
@@ -301,7 +315,7 @@ template <int n> static void runEig (typename MatOf<n>::M A, T tol, const char* 
     typedef typename MatOf<n>::M M; typedef typename MatOf<n>::V V;
     M A0 = A, Vm; V S;
     jacobiEigenSolver (A, S, Vm, tol);
-    printf ("CASE eig%d %s %s => %s %s %s\n", n, hin (tol).c_str (), hm (A0, n, true).c_str (), hm (A, n).c_str (), hv (S, n).c_str (), hm (Vm, n).c_str ());
+    printf (CASEP "eig%d %s %s => %s %s %s\n", n, hin (tol).c_str (), hm (A0, n, true).c_str (), hm (A, n).c_str (), hv (S, n).c_str (), hm (Vm, n).c_str ());
     stats[std::string (stat) + (n == 3 ? "3" : "4")]++;
 }
 template <int n> static void caseEig ()
@@ -316,7 +330,7 @@ template <int n> static void caseEig ()
 template <int n> static void structuredCases ()
 {
     typedef typename MatOf<n>::M M;
-    const T eps = 2.220446049250313e-16;
+    const T eps = (T) EPS_T;
     for (auto& nm : c12Structured<M, T, n> (false)) runSVD<n> (nm.second, eps, "svd_structured");
     for (auto& nm : c12Structured<M, T, n> (true)) { runEig<n> (nm.second, eps, "eig_structured"); runSVD<n> (nm.second, eps, "svd_structured"); }
 }
@@ -324,8 +338,8 @@ static void caseIdx ()
 {
     // maxEigenVector / minEigenVector index selection, observed on a diagonal matrix (eigenvectors = unit vectors)
     int n = 3 + (g () & 1);
-    double s[4];
-    for (int i = 0; i < n; ++i) s[i] = (double) I (-3, 3) * (g () % 3 == 0 ? 1.0 : U (0.5, 1.5));
+    T s[4];
+    for (int i = 0; i < n; ++i) s[i] = (T) I (-3, 3) * (g () % 3 == 0 ? 1.0 : U (0.5, 1.5));
     int mx = -1, mn = -1;
     if (n == 3)
     {
@@ -340,7 +354,7 @@ static void caseIdx ()
         for (int i = 0; i < 4; ++i) { if (v[i] == 1) mx = i; if (w[i] == 1) mn = i; }
     }
     std::string in; for (int i = 0; i < n; ++i) in += " " + hin (s[i]);
-    printf ("CASE idx %d%s => %d %d\n", n, in.c_str (), mx, mn);
+    printf (CASEP "idx %d%s => %d %d\n", n, in.c_str (), mx, mn);
     stats["idx"]++;
 }
 
@@ -362,10 +376,10 @@ int main (int argc, char** argv)
         if (i % 8 == 2) caseIdx ();
         if (i % 16 == 3)
         {
-            Vec3<T> v (U (-1, 1) * std::pow (10.0, -I (0, 320)), U (-1, 1) * std::pow (10.0, -I (0, 320)), U (-1, 1) * std::pow (10.0, -I (0, 320)));
-            printf ("CASE len3 %s => %s\n", hv (v, 3, true).c_str (), hx (v.length ()).c_str ());
+            Vec3<T> v (U (-1, 1) * std::pow (10.0, -I (0, LEN_EXP)), U (-1, 1) * std::pow (10.0, -I (0, LEN_EXP)), U (-1, 1) * std::pow (10.0, -I (0, LEN_EXP)));
+            printf (CASEP "len3 %s => %s\n", hv (v, 3, true).c_str (), hx (v.length ()).c_str ());
             Vec2<T> w (v.x, v.y);
-            printf ("CASE len2 %s => %s\n", hv (w, 2, true).c_str (), hx (w.length ()).c_str ());
+            printf (CASEP "len2 %s => %s\n", hv (w, 2, true).c_str (), hx (w.length ()).c_str ());
         }
     }
     printf ("STATS");
